@@ -680,6 +680,31 @@ def partialNodeOn (S : Schema) : Nat → List Node → Nat → Bool → Bool
 def Slice.noPartialNode (S : Schema) (sl : Slice) : Bool :=
   !partialNodeOn S sl.openEnd sl.content sl.openStart true
 
+/-! ### decidable hypotheses of the deletion-totality theorem (Props/C11.lean `delete_total`) -/
+
+/-- every generatable type that labels an edge of a content automaton — every type `fill_before` can
+    choose — can be created and filled (`create_and_fill()` returns a node: default attributes, a
+    filling to a valid end, recursively) -/
+def Schema.fillersOKB (S : Schema) : Bool :=
+  (List.range S.nodes.size).all (fun w => (List.range (S.dfa w).size).all (fun q =>
+    ((S.dfa w).edgesOf q).all (fun e =>
+      !S.generatable e.1 || (createAndFill S (S.nodes.size + 1) e.1).isSome)))
+
+mutual
+/-- element nodes have a non-text, non-leaf type and carry attributes `type.create` accepts (what
+    every node built through the schema satisfies; `Node.check` does not look at it) -/
+def Schema.nodeAttrsOK (S : Schema) : Node → Bool
+  | .elem t a _ kids =>
+    !(S.nodeType t).isText && !(S.nodeType t).isLeaf &&
+    (match computeAttrs (S.nodeType t).attrs a with
+     | .ok _ => true
+     | .error _ => false) && S.kidsAttrsOK kids
+  | _ => true
+def Schema.kidsAttrsOK (S : Schema) : List Node → Bool
+  | [] => true
+  | n :: ns => S.nodeAttrsOK n && S.kidsAttrsOK ns
+end
+
 /-- `Transform.delete_range(f, t)`: the step it records (via `self.delete(f', t')` =
     `self.replace(f', t', Slice.empty)` = `replace_step`); `.ok none` = no step -/
 def deleteRangeStep (S : Schema) (doc : Node) (f t : Nat) : FM (Option Step) :=
